@@ -316,6 +316,7 @@ def evaluate_cases(mod, cases, timeout):
         base = start + 1                 # model reply of this case's first line (after its reset line)
         start += 1 + len(c['lines'])     # per-case offsets: a finding that ends a case early never shifts later cases
         stats['tags'][c.get('tag', '')] = stats['tags'].get(c.get('tag', ''), 0) + 1
+        pending = None
         for i, (line, ir) in enumerate(zip(c['lines'], irs)):
             mr = model_flat[base + i] if model_flat is not None else 'no-driver'
             stats['lines'] += 1
@@ -333,10 +334,16 @@ def evaluate_cases(mod, cases, timeout):
                 kind = 'violation'
                 if isinstance(d, tuple):
                     kind, d = d
-                findings.append(Finding(kind, c, 'line %d: %s' % (i, d), impl=irs, model=None))
-                findings[-1].line_index = i
-                findings[-1].model = mr
-                break
+                f = Finding(kind, c, 'line %d: %s' % (i, d), impl=irs, model=None)
+                f.line_index = i
+                f.model = mr
+                if kind == 'violation':
+                    pending = f          # the statement itself fails on this line: report it (rather than an earlier mere divergence)
+                    break
+                if pending is None:
+                    pending = f          # a divergence: keep going, a later line of the history may show the statement failing
+        if pending is not None:
+            findings.append(pending)
     return findings, stats, impl_replies
 
 
